@@ -590,6 +590,13 @@ class Exec:
                 return z3.ToReal(x)
             env[ins.res] = self.lift1(conv, v)
             return
+        if op in ('fptosi', 'fptoui'):
+            # C19 (rgbColor: switch(int(floor(h/60)))): conversion to integer truncates towards zero; integers are unbounded here
+            # (an out-of-range conversion is UB/poison in the source and invisible, like overflow, in this real-arithmetic model)
+            v = C(ins.ops[0], ins.extra['src_ty'])
+            self.ufs.used.add('%s (interpreted: truncation towards zero, unbounded integers)' % op)
+            env[ins.res] = self.lift1(lambda x: z3.If(x >= 0, z3.ToInt(x), -z3.ToInt(-x)), v)
+            return
         if op in ('zext', 'sext', 'trunc'):
             v = C(ins.ops[0], ins.extra['src_ty'])
 
